@@ -6,6 +6,7 @@
   an arbitrary declaration.  Short names are arbitrary runes — the multi-byte case is where the
   tree was wrong (D9) — and values are arbitrary bytes.
 -/
+import GoFlags.Props.C02.Trans
 import GoFlags.Props.C02.Facts
 import GoFlags.Parse
 import GoFlags.Lemmas.ParseBasics
